@@ -26,7 +26,7 @@ MAX_LOG = 250
 FEATURES = ("deco-order", "temp-inst", "native-enclosing", "comp-target", "global-skip", "class-in-func", "del-global",
             "nested-default")
 # features added later draw from a generator of their own, so that the programs of the earlier rounds stay the same
-LATE_FEATURES = ("nonlocal-skip",)
+LATE_FEATURES = ("nonlocal-skip", "ann-captured")
 
 
 def I(n):
@@ -169,6 +169,9 @@ class Gen:
             if self.feat.get("nonlocal-skip", True) or nl in direct:
                 code["nonlocals"] = [nl]
         inner["globals"] = code["globals"]
+        inner["nonlocals"] = code["nonlocals"]
+        # names that hold a list in the scopes around (hint for subscripts through captured containers)
+        inner["encl_lists"] = set(ctx.get("lists", ())) | set(ctx.get("encl_lists", ()))
         code["body"] = self.gen_block(inner, r.randint(2, 6))
         if not any(s["k"] == "ret" for s in code["body"]) and r.random() < 0.6:
             code["body"].append({"k": "ret", "e": self.atom(inner) if r.random() < 0.7 else self.ev(self.atom(inner)), "g": 0})
@@ -290,12 +293,21 @@ class Gen:
         if kind == "func":
             choices += ["ret", "nonread"]
             if not deep:
-                choices += ["nlclosure", "nlclosure"]
+                choices += ["nlclosure", "nlclosure", "subclosure"]
         if kind in ("func", "module") and not deep:
             choices += ["glclosure"]
         if self.classes:
             choices += ["inst", "inst", "mcall", "mcall", "attr", "setattr", "tempcall"]
+        # round 4: list objects, subscripts and the other target forms of binding statements
+        choices += ["sub"] * 4
         k = r.choice(choices)
+        if k == "sub":
+            kinds = ["mklist", "mklist", "subload", "subload", "substore", "substore", "subaug", "subdel", "tupstore", "chainstore"]
+            if self.feat.get("ann-captured"):
+                kinds += ["annassign", "annassign"]
+            if not deep:
+                kinds += ["forsub", "withsub"]
+            return self.sub_stmt(ctx, r.choice(kinds))
         if k == "assign":
             x = r.choice(VARS)
             e = self.const() if r.random() < 0.7 else self.atom(ctx)
@@ -451,6 +463,38 @@ class Gen:
                         {"k": "expr", "e": self.ev({"k": "call", "f": N(fx), "args": [], "kws": []}), "g": self.site()},
                         {"k": "expr", "e": self.ev(N(x)), "g": self.site()}]
             return out
+        if k == "subclosure":
+            # a list (and an index) bound here; an inner function whose ONLY mention of them is inside the target of a
+            # store / augmented store / del / for / with (or a subscript load); called at once, the list is read out here
+            self.budget -= 2
+            x, ix = r.sample(VARS, 2)
+            fx = r.choice(FUNCS)
+            ci = len(self.codes)
+            self.codes.append(None)
+            i = N(ix) if r.random() < 0.5 else I(r.choice([0, 1]))
+            t = {"k": "tsub", "o": N(x), "i": i}
+            kind2 = r.choice(["store", "tup", "chain", "aug", "del", "for", "with", "load"])
+            y = r.choice([v for v in VARS if v not in (x, ix)])
+            body = {"store": [{"k": "store", "ts": [t], "e": self.const(), "g": 0}],
+                    "tup": [{"k": "store", "ts": [{"k": "ttuple", "ts": [t, {"k": "tname", "x": y}]}],
+                             "e": {"k": "mklist", "es": [self.const(), self.const()]}, "g": 0}],
+                    "chain": [{"k": "store", "ts": [{"k": "tname", "x": y}, t], "e": self.const(), "g": 0}],
+                    "aug": [{"k": "augsub", "o": t["o"], "i": t["i"], "g": 0}],
+                    "del": [{"k": "delsub", "o": t["o"], "i": t["i"], "g": 0}],
+                    "for": [{"k": "fort", "t": t, "ns": [self.const()["n"]], "body": [], "g": 0}],
+                    "with": [{"k": "witht", "t": t, "e": self.const(), "body": [], "g": 0}],
+                    "load": [{"k": "expr", "e": self.ev({"k": "sub", "o": t["o"], "i": t["i"]}), "g": 0}]}[kind2]
+            self.codes[ci] = new_code("func", body=body)
+            self.sigs[fx] = EMPTY_SIG()
+            for n_ in (x, ix, fx):
+                self.bind(ctx, n_)
+            ctx.setdefault("lists", set()).add(x)
+            return [{"k": "assign", "x": x, "e": {"k": "mklist", "es": [self.const(), self.const()]}, "g": 0},
+                    {"k": "assign", "x": ix, "e": I(r.choice([0, 1])), "g": 0},
+                    {"k": "def", "x": fx, "c": ci + 1, "decos": [], "g": 0},
+                    {"k": "expr", "e": self.ev({"k": "call", "f": N(fx), "args": [], "kws": []}), "g": self.site()},
+                    {"k": "expr", "e": self.ev({"k": "sub", "o": N(x), "i": I(0)}), "g": self.site()},
+                    {"k": "expr", "e": self.ev(N(x)), "g": self.site()}]
         if k == "ifrec":
             # bounded recursion: f(n) calls f(n - 1) while n > 0
             if kind != "func" or ctx.get("method") or "p0" not in ctx["sig"]["pk"] + ctx["sig"]["po"] or ctx.get("name") not in FUNCS:
@@ -508,6 +552,89 @@ class Gen:
                     out.extend(st if isinstance(st, list) else [st])
             return out
         return self.obj_stmt(ctx, k, r.choice(sorted(self.classes)))
+
+    def sub_stmt(self, ctx, k):
+        """statements with list objects, subscripts, tuple / chained / annotated targets.  The container is a name that
+        holds a list most of the time (a list bound in this scope, or any variable: then possibly an int, a function,
+        an unbound name - TypeError / NameError are part of the statement), the index an int in or (rarely) out of
+        range or a variable."""
+        r = self.r
+
+        def container():
+            ls = sorted(ctx.get("lists", ()))
+            el = sorted(ctx.get("encl_lists", ()))
+            if el and r.random() < 0.4:
+                return N(r.choice(el))                        # a list of an enclosing scope (captured, unless rebound here)
+            if ls and r.random() < 0.75:
+                return N(r.choice(ls))
+            return N(self.some_name(ctx, (VARS, VARS, PARAMS)))
+
+        def index():
+            c = r.random()
+            if c < 0.75:
+                return I(r.choice([0, 0, 1]))
+            if c < 0.85:
+                return I(2)                                   # out of range for the two-element lists made here
+            return N(self.some_name(ctx, (VARS, PARAMS)))
+
+        def tsub():
+            return {"k": "tsub", "o": container(), "i": index()}
+        if k == "mklist":
+            x = r.choice(VARS)
+            s_ = {"k": "assign", "x": x, "e": {"k": "mklist", "es": [self.atom(ctx), self.atom(ctx)]}, "g": self.guard(ctx)}
+            self.bind(ctx, x)
+            ctx.setdefault("lists", set()).add(x)
+            return s_
+        if k == "subload":
+            return {"k": "expr", "e": self.ev({"k": "sub", "o": container(), "i": index()}), "g": self.guard(ctx, always=True)}
+        if k == "substore":
+            return {"k": "store", "ts": [tsub()], "e": self.atom(ctx), "g": self.guard(ctx, always=True)}
+        if k == "subaug":
+            t = tsub()
+            return {"k": "augsub", "o": t["o"], "i": t["i"], "g": self.guard(ctx, always=True)}
+        if k == "subdel":
+            t = tsub()
+            return {"k": "delsub", "o": t["o"], "i": t["i"], "g": self.guard(ctx, always=True)}
+        if k == "tupstore":
+            ts = []
+            for _ in range(2):
+                if r.random() < 0.7:
+                    x = r.choice(VARS)
+                    self.bind(ctx, x)
+                    ts.append({"k": "tname", "x": x})
+                else:
+                    ts.append(tsub())
+            e = {"k": "mklist", "es": [self.atom(ctx), self.atom(ctx)]} if r.random() < 0.8 else container()
+            return {"k": "store", "ts": [{"k": "ttuple", "ts": ts}], "e": e, "g": self.guard(ctx, always=True)}
+        if k == "chainstore":
+            ts = []
+            for _ in range(2):
+                if r.random() < 0.7:
+                    x = r.choice(VARS)
+                    self.bind(ctx, x)
+                    ts.append({"k": "tname", "x": x})
+                else:
+                    ts.append(tsub())
+            return {"k": "store", "ts": ts, "e": self.atom(ctx), "g": self.guard(ctx, always=True)}
+        if k == "annassign":
+            x = r.choice(VARS)
+            if x in ctx.get("globals", []) or x in ctx.get("nonlocals", []):
+                return None                                   # CPython: annotated name can't be global / nonlocal
+            self.bind(ctx, x)
+            return {"k": "annassign", "x": x, "e": self.atom(ctx), "g": self.guard(ctx)}
+        inner = dict(ctx, depth=ctx["depth"] + 1)
+        if k == "forsub":
+            self.budget -= 1
+            t = tsub()
+            body = [s_ for s_ in self.gen_block(inner, r.randint(0, 1)) if s_["k"] != "ret"]
+            return {"k": "fort", "t": t, "ns": [self.const()["n"] for _ in range(r.randint(1, 2))], "body": body,
+                    "g": self.guard(ctx, always=True)}
+        if k == "withsub":
+            self.budget -= 1
+            t = tsub()
+            body = [s_ for s_ in self.gen_block(inner, r.randint(0, 1)) if s_["k"] != "ret"]
+            return {"k": "witht", "t": t, "e": self.const(), "body": body, "g": self.guard(ctx, always=True)}
+        return None
 
     def use_func(self, ctx, x, prob=0.75):
         """statements that call the function just bound to x (so that its body runs)"""
@@ -759,12 +886,8 @@ def loci(codes):
                     out.add("nested-default")
         if kind == "func" and code["globals"] and any(s["k"] == "del" and s["x"] in code["globals"] for s in walk_stmts(code["body"])):
             out.add("del-global")
-        if kind == "func":
-            # an annotated assignment of a name that a nested code object mentions
-            ann = {s["x"] for s in walk_stmts(code["body"]) if s["k"] == "annassign"}
-            if ann and any(i in chain(j) and ann & (names_read(cj) | binds_of(cj) | set(cj["nonlocals"]) | set(cj["globals"]))
-                           for j, cj in enumerate(codes)):
-                out.add("ann-captured")
+        if kind == "func" and any(s["k"] == "annassign" for s in walk_stmts(code["body"])):
+            out.add("ann-captured")         # an annotated assignment in a function's own block (locus annloc)
         if kind == "func":
             # a nonlocal name the function binds whose owner is not the function directly around (class bodies skipped)
             for x in set(code["nonlocals"]) & binds_of(code):
@@ -909,7 +1032,7 @@ def render(codes):
         if s["g"]:
             out.append(p + "try:")
             plain(s, ind + 4)
-            out.append(p + "except (NameError, TypeError, AttributeError) as _e:")
+            out.append(p + "except (NameError, TypeError, AttributeError, IndexError, ValueError) as _e:")
             out.append(p + "    log(%d, _e)" % s["g"])
         else:
             plain(s, ind)
@@ -1007,7 +1130,7 @@ def prelude(log_list):
         if isinstance(v, int):
             return "int", v
         if isinstance(v, BaseException):
-            for fam in (NameError, TypeError, AttributeError):
+            for fam in (NameError, TypeError, AttributeError, IndexError, ValueError):
                 if isinstance(v, fam):
                     return fam.__name__, 0
             if isinstance(v, E):
@@ -1070,7 +1193,9 @@ def finish_log(log_list, exc):
     elif isinstance(exc, TooLong):
         k = "TooLong"
     else:
-        k = "ABORT:" + type(exc).__name__
+        # an exception no guard caught: the machine ends its log with the family name too
+        k = next((fam.__name__ for fam in (NameError, TypeError, AttributeError, IndexError, ValueError) if isinstance(exc, fam)),
+                 "ABORT:" + type(exc).__name__)
     log_list.append({"s": 0, "k": k, "n": 0})
 
 
@@ -1293,7 +1418,7 @@ MEN_POS = (  # (position, role of x)
     ("st", "c"), ("aug", "c"), ("del", "c"), ("tup", "c"), ("chain", "c"), ("for", "c"), ("with", "c"), ("load", "c"),
     ("st", "i"), ("aug", "i"), ("del", "i"), ("tup", "i"), ("chain", "i"), ("for", "i"), ("with", "i"), ("load", "i"),
     ("stv", "v"), ("arg", "v"), ("kwarg", "v"), ("ret", "v"), ("test", "v"), ("withctx", "v"), ("sub1", "v"),
-    ("walrus", "v"), ("listv", "v"), ("callee", "f"), ("attrst", "o"), ("attrld", "o"), ("mcall", "o"))
+    ("walrus", "v"), ("listv", "v"), ("callee", "f"), ("deco", "f"), ("attrst", "o"), ("attrld", "o"), ("mcall", "o"))
 MEN_VIA = ("direct", "fn", "cls")
 MEN_BIND = ("param", "assign", "ann", "chain", "tuple", "with", "walrus", "for")
 MEN_TARGET_POS = ("st", "aug", "del", "tup", "chain", "for", "with")      # x stands inside a target
@@ -1389,6 +1514,9 @@ def men_program(member, rs):
         "walrus": lambda: [{"k": "ret", "e": ev({"k": "walrus", "x": "v1", "a": N(x)}), "g": 0}],
         "listv": lambda: [{"k": "ret", "e": ev(sub(mklist(N(x), K()), I(0))), "g": 0}],
         "callee": lambda: [{"k": "ret", "e": ev(call(N(x), K())), "g": 0}],
+        "deco": lambda: [{"k": "def", "x": "f1", "c": add(new_code("func", body=[{"k": "ret", "e": K(), "g": 0}])),
+                          "decos": [N(x)], "g": 0},
+                         {"k": "ret", "e": ev(call(N("f1"))), "g": 0}],
         "attrst": lambda: [{"k": "store", "ts": [{"k": "tattr", "o": N(x), "a": "q0"}], "e": K(), "g": 0}] + kret,
         "attrld": lambda: [{"k": "ret", "e": ev({"k": "attr", "o": N(x), "a": "q0"}), "g": 0}],
         "mcall": lambda: [{"k": "ret", "e": ev(call({"k": "attr", "o": N(x), "a": "m0"})), "g": 0}],
